@@ -310,13 +310,15 @@ func (t *sseClientTransport) handleEndpointEvent(endpointURL string) {
 		parsedURL = t.baseURL.ResolveReference(parsedURL)
 	}
 
-	t.endpoint = parsedURL
-	// Signal that the endpoint has been received; a server may repeat the event.
+	// A server may repeat the event; the endpoint is fixed by the first one (callers read it
+	// without synchronisation once endpointChan is closed).
 	select {
 	case <-t.endpointChan:
+		return
 	default:
-		close(t.endpointChan)
 	}
+	t.endpoint = parsedURL
+	close(t.endpointChan) // Signal that the endpoint has been received.
 }
 
 // handleMessageEvent processes message events from the server.
